@@ -43,6 +43,7 @@ class Sched:
         self.error = None
         self.exceptions = {}
         self._by_ident = {}
+        self.lock_names = {}
 
     def spawn(self, tid, fn):
         sem = threading.Semaphore(0)
@@ -155,7 +156,8 @@ class CoopLock:
                 raise LostControl("unscheduled thread blocks on a cooperative lock")
             self.locked_by = "main"
             return True
-        s.yield_point(("lock-acquire", id(self) % 9973))
+        # locks are named by the order in which an execution first touches them (addresses differ from run to run)
+        s.yield_point(("lock-acquire", s.lock_names.setdefault(id(self), len(s.lock_names))))
         while self.locked_by is not None:
             if not blocking:
                 return False
